@@ -489,6 +489,53 @@ def family_F(tier):
     return [('F', i) for i in range(len(F_PROGRAMS))]
 
 
+
+# ---------------------------------------------------------------------------
+# Family O: the same functions called (hence generated) in every order -- nothing the code generator remembers from
+# one function may influence the next
+# ---------------------------------------------------------------------------
+
+O_PRELUDE = """
+int g = 3; byte gb = 'a'; bool go = false; string gs = "gs"; const int[] CG = [5, 6]; int[] MG = [7, 8, 9];
+"""
+O_FUNCS = [
+    ("int sh(int g) { g += 1; int gb = g * 2; return gb; }", "writeln(sh(n));"),
+    ("int useg() { g += 10; gb += 1; return g + gb; }", "writeln(useg());"),
+    ("int loc() { int[] t = [1, 2, 3]; t[1] += g; t[0] += 1; return t[0] + t[1] + t.length; }", "writeln(loc()); writeln(loc());"),
+    ("byte by(byte b) { gb = b + 1; return gb; }", "writeln(by('x') is int);"),
+    ("string st(string s) { gs = s; return gs; }", 'write(st("new")); writeln(gs.length);'),
+    ("int cv(const int[] a) { return a.length * 10 + a[0]; }", "int[] lm = [n, 1, 2]; writeln(cv(CG)); writeln(cv(lm)); writeln(cv(MG)); writeln(cv([n]));"),
+    ("int vl(int n) { int a[n + 1]; a[n] = n; bool b[n + 9]; b[n + 8] = true; return a[n] + a.length + b.length; }", "writeln(vl(n));"),
+    ("bool ob(bool go) { return not go; }", "go = ob(go); writeln(go);"),
+    ("int rc(int d) { if (d <= 0) { return g; } int[] k = [d]; return rc(d - 1) + k[0]; }", "writeln(rc(n));"),
+    ("empty mu(int[] a, byte[] y) { a[0] += 1; y[0] += 1; }", "byte[] ly = ['p']; mu(MG, ly); writeln(MG[0]); write(ly); int[] l2 = [n]; mu(l2, ly); writeln(l2[0]);"),
+]
+O_ARGVS = [['2'], ['0']]
+O_BATCH = 12
+
+
+def family_O(tier):
+    k = 6 if tier == 'thorough' else 4
+    n = len(O_FUNCS)
+    perms = []
+    for combo in itertools.combinations(range(n), k):
+        if tier == 'quick' and sum(combo) % 10 != 3:
+            continue            # quick: every 10th 4-subset, all of its orders
+        perms.extend(itertools.permutations(combo))
+    if tier == 'thorough':
+        perms = perms[::7]
+    # every ordered pair adjacent at least once, both at the beginning of the program
+    pairs = [(i, j) for i in range(n) for j in range(n) if i != j]
+    perms = pairs + perms
+    return [('O', perms[i:i + O_BATCH]) for i in range(0, len(perms), O_BATCH)]
+
+
+def build_O(order):
+    decls = '\n'.join(O_FUNCS[i][0] for i in sorted(order))
+    calls = ' '.join(O_FUNCS[i][1].replace('lm', f'lm{j}').replace('ly', f'ly{j}').replace('l2', f'l2{j}') for j, i in enumerate(order))
+    again = ' '.join(O_FUNCS[i][1].replace('lm', f'lq{j}').replace('ly', f'lr{j}').replace('l2', f'lt{j}') for j, i in enumerate(order[:2]))
+    return O_PRELUDE + decls + f'\nempty @is_you(int n) {{ {calls} {again} writeln(g); }}\n'
+
 # ---------------------------------------------------------------------------
 # Family A: entry binding
 # ---------------------------------------------------------------------------
